@@ -56,6 +56,15 @@ CHECKS["C19"] = dict(level="exploration", engine="E3", ref="5/C19",
    technique="bounded-exhaustive enumeration of argument vectors (arity 0..2, thorough 0..3, over per-plugin atom alphabets incl. foreign kinds) x request battery, one process per vector",
    text="Every argument vector up to the arity bound over valid, boundary and invalid atoms of each argument kind for all 15 built-in plugins is passed to the real Setup in its own process; if accepted, the handler is driven with the request battery (incl. IA_NA/IA_PD with in-pool and v4-mapped hints, relayed) and must not panic, and its reply must survive ToBytes->FromBytes->ToBytes byte-identically with every plugin-owned option re-parsing to the same bytes under a typed parser. A worker that dies (log.Fatal, runtime fatal) is re-run alone and reported.",
    note="Values that are silently truncated but still well-formed on the wire (mtu 65536 -> 0) satisfy the stated round-trip criterion and are not reported. sleep durations <= 1ms, pool orders <= 16.")
+
+CHECKS["C18"] = dict(level="exploration", engine="E3", ref="5/C18",
+   technique="bounded-exhaustive enumeration of a configuration grammar (sections x listen forms x 35 address spellings x plugin-section shapes x item lists) through the real config.Load, plus 1-deviation closure of seed documents for no-panic",
+   text="Every document of the grammar is written to a file and loaded with the real config.Load; the loaded plugin names/arguments (file order, whitespace splitting) and listen addresses (ip/zone/port, wildcard and default port, multicast expansion computed from the host's interfaces) are compared with the statement, and the six rejection clauses are asserted. Every single-character insert/replace/delete/truncate of the seed documents over the YAML-significant characters is loaded for no-panic.",
+   note="viper/yaml are exercised as shipped. Multicast expansion is checked for the sandbox's interface set only. Spellings on which the statement is silent (out-of-range ports, bare IPv6, v4-mapped, bare-string items, default listeners) are enumerated for no-panic only.")
+CHECKS["C10"] = dict(level="model_checking", engine="E3+E1", ref="5/C10",
+   technique="bounded-exhaustive enumeration of all lease files up to 3/4 lines against a reference parser + explicit-state BFS to fixpoint of the autorefresh event graph (reload = real watcher-loop body) + dual-stack configurations",
+   text="All lease files of 0..3 (thorough 0..4) lines over a 16-line alphabet, both protocols: Setup must err exactly when the reference parser rejects, and every probe MAC is looked up through the real handlers (v6 client identification by DUID-LL, DUID-LLT, RFC 6939 relay option and EUI-64 peer, with and without IA_NA). The autorefresh graph {write good1/good2/bad/empty/wrong-family, reload} is explored to fixpoint with the invariant 'served mapping = last well-formed content reloaded'. Dual-stack: both setup orders with a v6 reload. Thorough adds a binding run with the real fsnotify watcher.",
+   note="inotify delivery is not modelled (reload events are explicit; one binding run with the real watcher, inconclusive on timeout). Known finding: dual-stack shares one table (known_findings.json).")
 ALL = ["C%02d" % i for i in range(1, 21)]
 NA_REASON = "check not built yet in this session (planned, see DESIGN.md section 5); will be claimed once its machinery exists"
 m = {
@@ -69,9 +78,9 @@ m = {
   "add_only": True,
  },
  "engines": [
-  {"name": "E1 explicit-state BFS over real handlers", "path": "mc/explore", "serves_properties": ["C04","C05","C06","C07"], "kind_free_text": "explicit-state model checking where every transition is an execution of the real code on a fresh instance (replay of the shortest path + 1 op); state key = hook dump + observer ghost"},
+  {"name": "E1 explicit-state BFS over real handlers", "path": "mc/explore", "serves_properties": ["C04","C05","C06","C07","C10"], "kind_free_text": "explicit-state model checking where every transition is an execution of the real code on a fresh instance (replay of the shortest path + 1 op); state key = hook dump + observer ghost"},
   {"name": "E2 cooperative scheduler + preemption-bounded DFS", "path": "mc/sched + mc/verifsched + mc/cmd/instr", "serves_properties": [], "kind_free_text": "stateless model checking of the implementation: sync replaced by a shim through go build -overlay, Yield() injected before every statement, all schedules up to a preemption bound"},
-  {"name": "E3 bounded-exhaustive enumerator vs reference model", "path": "mc/checks/*", "serves_properties": ["C11","C12","C13","C14","C15","C17","C19","C20"], "kind_free_text": "complete cross product of small per-dimension alphabets executed on the real code and compared with a reference written from the property text"},
+  {"name": "E3 bounded-exhaustive enumerator vs reference model", "path": "mc/checks/*", "serves_properties": ["C10","C11","C12","C13","C14","C15","C17","C18","C19","C20"], "kind_free_text": "complete cross product of small per-dimension alphabets executed on the real code and compared with a reference written from the property text"},
  ],
  "checks": [],
  "not_applicable": [],
